@@ -13,19 +13,24 @@
    the last blocks of a peer chain that is not higher), every request answered by the peer, the answers processed
    lowest height first.  Proofs/Sync2Refine.v proves that Model/Sync.v's [sim_round] IS this machine.
 
-   Proved here ([a_catches_up]): if the window of the by-height request always reaches the frontier ([Hreach]: as long
-   as the node's own height [th L] is below the peer's, L <= th L + PARALLEL_BLOCKS_DOWNLOAD + 1), then from every
-   state whose queue is well formed the frontier passes hp after finitely many rounds.
+   Proved here ([a_catches_up]): if the node always holds the block just below the frontier ([Hhd]: L <= hd L + 1, where
+   hd L is the highest height at which it holds a block - its own height or the height of an alternative tip; true of
+   every reachable node, Proofs/Sync2Reach.v), then from every state whose queue is well formed the frontier passes hp
+   after finitely many rounds.
    Termination measure, lexicographic:
      1. hp + 1 - L                       blocks of the peer's chain not yet stored;
-     2. while no queue entry is at or above the frontier ("live"): the number of iterations until the by-height part
-        fires again (wait counter n, fork-wait counter: at most 21 + 21);
+     2. while no queue entry is at or above the frontier ("live"):
+        2a. L - (base of the next by-height window)  [dB]: a window that lies below the frontier is answered with
+            duplicates only; since the node holds a block at the last requested height the next window starts ABOVE it;
+        2b. the number of iterations until the by-height part fires again (wait counter n, fork-wait counter: at most
+            21 + 21)  [tau];
      3. while there is a live entry: (lowest live entry - L) + number of entries below the frontier ("stale").
         Every round either removes the stale head, or takes the lowest live entry one step down (orphan -> parent
         queued), or stores the block at the frontier.  This needs the invariant that the live entries stand in the
         queue in ascending order ([Inv1]; the stale ones may be anywhere), which [queue_set]'s sorted insertion
         and the head-to-back rotation preserve.
-   Without [Hreach] the machine can livelock: see Proofs/Sync2Stuck.v. *)
+   Before the repair of Synchronize (KNOWN_FINDINGS C11-long-light-fork) the window always restarted at the node's own
+   height and step 2a did not exist: the machine could livelock (history in Proofs/Sync2Stuck.v). *)
 From Coq Require Import Arith Bool Lia Sorted.
 From Virel Require Import Lib.Config Lib.U64.
 Open Scope N_scope.
@@ -473,6 +478,7 @@ End Batch.
 Section AMachine.
 Variable hp pbd : N.       (* height of the peer's tip; PARALLEL_BLOCKS_DOWNLOAD *)
 Variable th : N -> N.      (* the node's own height (stats.TopHeight) when the frontier is L *)
+Variable hd : N -> N.      (* the highest height at which the node holds a block (main chain or alternative tip) *)
 Notation hts := (hts hp).
 
 Definition a_window (r : option (N * N)) : list N :=
@@ -482,12 +488,18 @@ Definition a_window (r : option (N * N)) : list N :=
 Definition a_tick_height (L last wait fw : N) : N * N * N * option (N * N) :=
   let t := th L in
   if (t <? last) && negb (20 <? wait) then (last, wait + 1, fw, None)
-  else if t <? hp then
-    let count := N.min (hp - t) pbd in (t + count, 0, fw, Some (t + 1, count))
   else
-    let start := if pbd <? hp then hp - pbd + 1 else 1 in
-    let fw' := if 20 <=? fw then 0 else fw + 1 in
-    if (fw =? 0) && (start <=? hp) then (t, 0, fw', Some (start, hp - start)) else (t, 0, fw', None).
+    (* the blocks requested have not extended the main chain: start again at our height if no block is held at the last
+       requested height (or the announced height is reached), otherwise continue above it *)
+    let last0 := if t <? last then (if (hd L <? last) || (hp <=? last) then t else last) else last in
+    let base := N.max last0 t in
+    if base <? hp then
+      let count := N.min (hp - base) pbd in (base + count, 0, fw, Some (base + 1, count))
+    else if hp <=? t then
+      let start := if pbd <? hp then hp - pbd + 1 else 1 in
+      let fw' := if 20 <=? fw then 0 else fw + 1 in
+      if (fw =? 0) && (start <=? hp) then (base, 0, fw', Some (start, hp - start)) else (base, 0, fw', None)
+    else (base, 0, fw, None).
 
 Definition a_round (a : astate) : astate :=
   if hp <? aL a then a
@@ -526,31 +538,84 @@ Definition tau (L last wait fw : N) : N :=
 
 Variable L0 : N.
 Hypothesis HL0 : 1 <= L0.
-(* the window of the by-height request reaches the frontier *)
-Hypothesis Hreach : forall L, L0 <= L -> L <= hp -> th L < hp -> L <= th L + pbd + 1.
+(* the block just below the frontier is held *)
+Hypothesis Hhd : forall L, L0 <= L -> L <= hp + 1 -> L <= hd L + 1.
 
+(* the base of the next by-height window while the node's own height is below the peer's, and how far the frontier is
+   above it *)
+Definition nbase (L last : N) : N := if (th L <? last) && (last <=? hd L) && (last <? hp) then last else th L.
+Definition dB (L last : N) : N := if th L <? hp then L - nbase L last else 0.
+
+Lemma ath_wait L last wait fw : (th L <? last) && negb (20 <? wait) = true ->
+  a_tick_height L last wait fw = (last, wait + 1, fw, None).
+Proof. intros E. unfold a_tick_height. rewrite E. reflexivity. Qed.
+
+Lemma ath_fire L last wait fw : (th L <? last) && negb (20 <? wait) = false ->
+  a_tick_height L last wait fw =
+  let base := nbase L last in
+  if base <? hp then (base + N.min (hp - base) pbd, 0, fw, Some (base + 1, N.min (hp - base) pbd))
+  else if hp <=? th L then
+    if (fw =? 0) && ((if pbd <? hp then hp - pbd + 1 else 1) <=? hp)
+    then (base, 0, if 20 <=? fw then 0 else fw + 1, Some (if pbd <? hp then hp - pbd + 1 else 1, hp - (if pbd <? hp then hp - pbd + 1 else 1)))
+    else (base, 0, if 20 <=? fw then 0 else fw + 1, None)
+  else (base, 0, fw, None).
+Proof.
+  intros E. unfold a_tick_height. rewrite E. cbn zeta.
+  assert (Hb : N.max (if th L <? last then if (hd L <? last) || (hp <=? last) then th L else last else last) (th L) = nbase L last).
+  { unfold nbase. destruct (N.ltb_spec (th L) last), (N.ltb_spec (hd L) last), (N.leb_spec hp last),
+      (N.leb_spec last (hd L)), (N.ltb_spec last hp); cbn [orb andb]; lia. }
+  rewrite Hb. reflexivity.
+Qed.
+
+(* one iteration of the by-height part: nothing requested and one iteration less to wait; or a window that contains the
+   frontier or lies above it; or a window below the frontier (all duplicates), after which the next window starts higher *)
 Lemma ath_cases L last wait fw : L0 <= L -> L <= hp ->
   let r := a_tick_height L last wait fw in
-  (snd r = None /\ tau L (fst (fst (fst r))) (snd (fst (fst r))) (snd (fst r)) < tau L last wait fw) \/
-  (exists h c, snd r = Some (h, c) /\ 1 <= h /\ h <= hp /\ (h <= L -> In L (hts h (S (N.to_nat c))))).
+  (snd r = None /\ tau L (fst (fst (fst r))) (snd (fst (fst r))) (snd (fst r)) < tau L last wait fw /\
+   dB L (fst (fst (fst r))) = dB L last) \/
+  (exists h c, snd r = Some (h, c) /\ 1 <= h /\ h <= hp /\ (h <= L -> In L (hts h (S (N.to_nat c))))) \/
+  (exists h c, snd r = Some (h, c) /\ 1 <= h /\ (forall x, In x (hts h (S (N.to_nat c))) -> x < L) /\
+               dB L (fst (fst (fst r))) < dB L last).
 Proof.
-  intros HL1 HL2. cbn zeta. unfold a_tick_height, tau.
-  destruct (N.ltb_spec (th L) last) as [Hc1|Hc1]; cbn [andb]; [destruct (N.ltb_spec 20 wait) as [Hc2|Hc2]; cbn [negb]|]; cbn [fst snd].
-  2:{ (* waiting *)
-      left. split; [reflexivity|]. destruct (N.ltb_spec (th L) last); [|lia]. cbn [andb].
-      destruct (N.ltb_spec 20 (wait + 1)); cbn [negb]; lia. }
-  all: destruct (N.ltb_spec (th L) hp) as [Ht|Ht]; cbn [fst snd].
-  1,3: right; exists (th L + 1), (N.min (hp - th L) pbd); (split; [reflexivity|]); (split; [lia|]); (split; [lia|]);
-       intros Hle; apply in_hts; pose proof (Hreach L HL1 HL2 Ht); lia.
-  all: set (start := if pbd <? hp then hp - pbd + 1 else 1);
-       assert (Hs : 1 <= start /\ start <= hp) by (unfold start; destruct (N.ltb_spec pbd hp); lia);
-       (destruct (N.leb_spec start hp) as [_|]; [|lia]);
-       destruct (N.eqb_spec fw 0) as [->|Hfw]; cbn [andb fst snd].
-  1,3: right; exists start, (hp - start); (split; [reflexivity|]); (split; [lia|]); (split; [lia|]);
-       intros Hle; apply in_hts; lia.
-  all: left; (split; [reflexivity|]); (destruct (N.ltb_spec (th L) (th L)); [lia|]); cbn [andb];
-       destruct (N.leb_spec 20 fw); [cbn; lia|];
-       (destruct (N.eqb_spec (fw + 1) 0); [lia|]); destruct (N.leb_spec 20 (fw + 1)); lia.
+  intros HL1 HL2. cbn zeta. pose proof (Hhd L HL1 ltac:(lia)) as Hh.
+  destruct ((th L <? last) && negb (20 <? wait)) eqn:Ec.
+  - (* waiting *)
+    left. rewrite (ath_wait L last wait fw Ec). cbn [fst snd]. split; [reflexivity|]. split; [|reflexivity].
+    unfold tau. rewrite Ec. apply andb_prop in Ec. destruct Ec as (Ec1 & Ec2). rewrite Ec1. cbn [andb].
+    destruct (N.ltb_spec 20 wait); [discriminate|]. destruct (N.ltb_spec 20 (wait + 1)); cbn [negb]; lia.
+  - rewrite (ath_fire L last wait fw Ec). unfold tau. rewrite Ec. set (base := nbase L last).
+    assert (Hbt : th L <= base).
+    { unfold base, nbase. destruct (N.ltb_spec (th L) last), (N.leb_spec last (hd L)), (N.ltb_spec last hp); cbn [andb]; lia. }
+    destruct (N.ltb_spec base hp) as [Hbh|Hbh]; cbn [fst snd].
+    + (* a window above the base *)
+      assert (Ht : th L < hp) by lia.
+      destruct (N.le_gt_cases (base + 1) L) as [Hl|Hl]; [destruct (N.le_gt_cases L (base + 1 + N.min (hp - base) pbd)) as [Hin|Hout]|].
+      * right. left. exists (base + 1), (N.min (hp - base) pbd). split; [reflexivity|]. split; [lia|]. split; [lia|].
+        intros _. apply in_hts. lia.
+      * right. right. exists (base + 1), (N.min (hp - base) pbd). split; [reflexivity|]. split; [lia|].
+        split; [intros x Hx; apply in_hts in Hx; lia|].
+        unfold dB. destruct (N.ltb_spec (th L) hp); [|lia]. fold base. unfold nbase.
+        destruct (N.ltb_spec (th L) (base + N.min (hp - base) pbd)); [|lia].
+        destruct (N.leb_spec (base + N.min (hp - base) pbd) (hd L)); [|lia].
+        destruct (N.ltb_spec (base + N.min (hp - base) pbd) hp); [|lia]. cbn [andb]. lia.
+      * right. left. exists (base + 1), (N.min (hp - base) pbd). split; [reflexivity|]. split; [lia|]. split; [lia|].
+        intros Hle. lia.
+    + (* the announced chain is not higher than ours *)
+      assert (Ebase : base = th L).
+      { unfold base, nbase in *. destruct (N.ltb_spec (th L) last), (N.leb_spec last (hd L)), (N.ltb_spec last hp); cbn [andb] in *; lia. }
+      assert (Ht : hp <= th L) by lia.
+      destruct (N.leb_spec hp (th L)) as [_|]; [|lia].
+      set (start := if pbd <? hp then hp - pbd + 1 else 1).
+      assert (Hs : 1 <= start /\ start <= hp) by (unfold start; destruct (N.ltb_spec pbd hp); lia).
+      destruct (N.leb_spec start hp) as [_|]; [|lia].
+      destruct (N.eqb_spec fw 0) as [->|Hfw]; cbn [andb fst snd].
+      * right. left. exists start, (hp - start). split; [reflexivity|]. split; [lia|]. split; [lia|].
+        intros Hle. apply in_hts. lia.
+      * left. split; [reflexivity|]. split; [|unfold dB; destruct (N.ltb_spec (th L) hp); [lia|reflexivity]].
+        rewrite Ebase. destruct (N.ltb_spec (th L) (th L)); [lia|]. cbn [andb].
+        destruct (N.ltb_spec (th L) hp); [lia|].
+        destruct (N.leb_spec 20 fw); [cbn; lia|].
+        destruct (N.eqb_spec (fw + 1) 0); [lia|]. destruct (N.leb_spec 20 (fw + 1)); lia.
 Qed.
 
 Lemma window_bounds w : (match w with Some (h, c) => 1 <= h | None => True end) ->
@@ -561,7 +626,8 @@ Lemma ath_window_bounds L last wait fw : L0 <= L -> L <= hp ->
   forall x, In x (a_window (snd (a_tick_height L last wait fw))) -> 1 <= x /\ x <= hp.
 Proof.
   intros HL1 HL2. apply window_bounds.
-  destruct (ath_cases L last wait fw HL1 HL2) as [(E & _)|(h & c & E & Hh & _)]; cbn zeta in E; rewrite E; [exact I|exact Hh].
+  destruct (ath_cases L last wait fw HL1 HL2) as [(E & _)|[(h & c & E & Hh & _)|(h & c & E & Hh & _)]]; cbn zeta in E; rewrite E;
+    [exact I|exact Hh|exact Hh].
 Qed.
 
 (* ------------------------------------------------------------------ rounds *)
@@ -645,11 +711,26 @@ Proof.
   - exists (S j). cbn [a_iter]. split; [exact HAj|lia].
 Qed.
 
-(* (2) no live entry: wait for the by-height part *)
-Lemma progress_wait : forall k a, AInv a -> aL a <= hp -> mu (aL a) (aq a) = None ->
-  (N.to_nat (tau (aL a) (alast a) (await a) (afw a)) < k)%nat -> Progress a.
+(* a batch below the frontier leaves a queue without live entries without live entries *)
+Lemma fold_proc_below xs : forall st, (forall x, In x xs -> x < fst st) -> (forall y, In y (snd st) -> y < fst st) ->
+  forall y, In y (snd (fold_left proc xs st)) -> y < fst st.
 Proof.
-  induction k as [|k IH]; intros a HA HL2 Hmu Hk; [lia|].
+  induction xs as [|x xs IHx]; intros st Hxs Hst y Hy; [apply Hst; exact Hy|]. cbn [fold_left] in Hy.
+  assert (Hx : x < fst st) by (apply Hxs; left; reflexivity).
+  assert (Ep : proc st x = (fst st, a_rm (snd st) x)) by (unfold proc; destruct (N.ltb_spec x (fst st)); [reflexivity|lia]).
+  rewrite Ep in Hy. apply (IHx (fst st, a_rm (snd st) x)); cbn [fst snd].
+  - intros z Hz. apply Hxs. right. exact Hz.
+  - intros z Hz. apply in_a_rm in Hz. apply Hst. apply Hz.
+  - exact Hy.
+Qed.
+
+(* (2) no live entry: wait for the by-height part; its windows move up until they reach the frontier *)
+Lemma progress_wait : forall kd kt a, AInv a -> aL a <= hp -> mu (aL a) (aq a) = None ->
+  (N.to_nat (dB (aL a) (alast a)) < kd)%nat ->
+  (N.to_nat (tau (aL a) (alast a) (await a) (afw a)) < kt)%nat -> Progress a.
+Proof.
+  induction kd as [|kd IHd]; [intros; lia|].
+  induction kt as [|kt IHt]; intros a HA HL2 Hmu Hd Hk; [lia|].
   pose proof (round_spec a HA HL2) as (HA' & Hmono & Hkeep). cbn zeta in *.
   destruct (N.eq_dec (aL (a_round a)) (aL a)) as [E|E].
   2:{ exists 1%nat. cbn [a_iter]. split; [exact HA'|lia]. }
@@ -663,29 +744,27 @@ Proof.
   { apply batch_bounds; [apply HS|exact Hb]. }
   destruct (fold_proc_keep _ (aL a) (tl (aq a)) HSt Hbb Efst) as (K1 & K2 & K3 & K4). cbn zeta in *.
   rewrite <- Eq in K1, K2, K3, K4.
-  destruct Hc as [(Ew & Htau)|(h & c & Ew & Hh1 & Hh2 & Hin)].
+  pose proof (mu_none _ _ Hmu) as Hall.
+  (* a round whose window is below the frontier leaves no live entry *)
+  assert (Hnolive : (forall x, In x (a_window (snd r)) -> x < aL a) -> mu (aL (a_round a)) (aq (a_round a)) = None).
+  { intros Hw. rewrite E. apply mu_none_intro. intros y Hy. rewrite Eq in Hy.
+    apply (fold_proc_below (a_batch (aq a) (a_window (snd r))) (aL a, tl (aq a))); cbn [fst snd].
+    - intros x Hx. destruct (aq a) as [|p q]; cbn [a_batch] in Hx; [apply Hw; exact Hx|].
+      apply in_ins_asc in Hx. destruct Hx as [->|Hx]; [apply Hall; left; reflexivity|apply Hw; exact Hx].
+    - intros z Hz. apply Hall. destruct (aq a) as [|p q]; [destruct Hz|right; exact Hz].
+    - exact Hy. }
+  assert (Elast : alast (a_round a) = fst (fst (fst r)) /\ await (a_round a) = snd (fst (fst r)) /\ afw (a_round a) = snd (fst r)).
+  { unfold a_round. destruct (N.ltb_spec hp (aL a)); [lia|]. cbn [alast await afw]. fold r. repeat split. }
+  destruct Elast as (El & Ew' & Ef).
+  destruct Hc as [(Ew & Htau & HdB)|[(h & c & Ew & Hh1 & Hh2 & Hin)|(h & c & Ew & Hh1 & Hbelow & HdB)]].
   - (* nothing requested by height: still no live entry, one iteration less to wait *)
     assert (Hp : Progress (a_round a)).
     2:{ destruct Hp as (j & HAj & Hj). exists (S j). cbn [a_iter]. split; [exact HAj|lia]. }
-    apply (IH (a_round a) HA'); [lia| |].
-    + rewrite E. apply mu_none_intro. intros y Hy. rewrite Eq in Hy.
-      assert (Hsub : forall xs st, (forall x, In x xs -> x < fst st) -> (forall y, In y (snd st) -> y < fst st) ->
-                       forall y, In y (snd (fold_left proc xs st)) -> y < fst st).
-      { clear. induction xs as [|x xs IHx]; intros st Hxs Hst y Hy; [apply Hst; exact Hy|]. cbn [fold_left] in Hy.
-        assert (Hx : x < fst st) by (apply Hxs; left; reflexivity).
-        assert (Ep : proc st x = (fst st, a_rm (snd st) x)) by (unfold proc; destruct (N.ltb_spec x (fst st)); [reflexivity|lia]).
-        rewrite Ep in Hy. apply (IHx (fst st, a_rm (snd st) x)); cbn [fst snd].
-        - intros z Hz. apply Hxs. right. exact Hz.
-        - intros z Hz. apply in_a_rm in Hz. apply Hst. apply Hz.
-        - exact Hy. }
-      pose proof (mu_none _ _ Hmu) as Hall.
-      apply (Hsub (a_batch (aq a) (a_window (snd r))) (aL a, tl (aq a))); cbn [fst snd].
-      * rewrite Ew. cbn [a_window]. intros x Hx. destruct (aq a) as [|p q]; cbn [a_batch] in Hx; [destruct Hx|].
-        cbn [ins_asc] in Hx. destruct Hx as [<-|[]]. apply Hall. left. reflexivity.
-      * intros z Hz. apply Hall. destruct (aq a) as [|p q]; [destruct Hz|right; exact Hz].
-      * exact Hy.
-    + rewrite E. unfold a_round. destruct (N.ltb_spec hp (aL a)); [lia|]. cbn [alast await afw]. fold r. lia.
-  - (* a window was requested *)
+    apply (IHt (a_round a) HA'); [lia| | |].
+    + apply Hnolive. rewrite Ew. intros x [].
+    + rewrite E, El, HdB. exact Hd.
+    + rewrite E, El, Ew', Ef. lia.
+  - (* a window that contains the frontier or lies above it *)
     assert (Hws : forall x, In x (a_window (snd r)) -> In x (a_batch (aq a) (a_window (snd r)))).
     { intros x Hx. destruct (aq a) as [|p q]; cbn [a_batch]; [exact Hx|apply in_ins_asc; right; exact Hx]. }
     destruct (N.le_gt_cases h (aL a)) as [Hle|Hgt].
@@ -699,13 +778,20 @@ Proof.
       destruct (progress_live (S (N.to_nat (m' - aL (a_round a)) + sig (aL (a_round a)) (aq (a_round a)))) (a_round a) m' HA')
         as (j & HAj & Hj); [lia|rewrite E; exact Hm'|lia|].
       exists (S j). cbn [a_iter]. split; [exact HAj|lia].
+  - (* a window below the frontier: duplicates only; the next window starts higher *)
+    assert (Hp : Progress (a_round a)).
+    2:{ destruct Hp as (j & HAj & Hj). exists (S j). cbn [a_iter]. split; [exact HAj|lia]. }
+    apply (IHd (S (N.to_nat (tau (aL (a_round a)) (alast (a_round a)) (await (a_round a)) (afw (a_round a))))) (a_round a) HA'); [lia| | |lia].
+    + apply Hnolive. rewrite Ew. exact Hbelow.
+    + rewrite E, El. lia.
 Qed.
 
 Lemma progress a : AInv a -> aL a <= hp -> Progress a.
 Proof.
   intros HA HL2. destruct (mu (aL a) (aq a)) as [m|] eqn:Hmu.
   - eapply (progress_live (S (N.to_nat (m - aL a) + sig (aL a) (aq a)))); [exact HA|exact HL2|exact Hmu|lia].
-  - eapply (progress_wait (S (N.to_nat (tau (aL a) (alast a) (await a) (afw a))))); [exact HA|exact HL2|exact Hmu|lia].
+  - eapply (progress_wait (S (N.to_nat (dB (aL a) (alast a)))) (S (N.to_nat (tau (aL a) (alast a) (await a) (afw a)))));
+      [exact HA|exact HL2|exact Hmu|lia|lia].
 Qed.
 
 (* (1) the frontier passes the peer's height *)
